@@ -157,7 +157,7 @@ PROPERTIES = {
         ],
         "level": "proof",
         "explanation": "DrawState::draw_to_term, visual_line_count, LineType::{console_width, as_ref}, VisualLines operators extracted from src/draw_target.rs and verified against the ghost terminal: rows are accounted as max(1, ceil(cols/width)) per line, the clear loop blanks exactly the rows of the previous frame, bars are painted only while their accumulated height fits the terminal height, the stored row count equals the rows of the painted bars and never exceeds the height, for every width >= 1, every number of lines and every previous frame height (three loops with inductive invariants).",
-        "level_text": "Deductive proof (Verus) over all line lists, widths, heights and previous frame sizes. wrapped_height itself is float code: its contract r == max(1, ceil(cols/width)) is assumed here and checked by a bounded Kani stand-in (thorough tier; bounded, not counted as proved).",
+        "level_text": "Deductive proof (Verus) over all line lists, widths, heights and previous frame sizes. wrapped_height is verified over the reals (R6: the f64 quotient rounded up equals the integer ceiling division, lemma_ceil_div); its IEEE-754 side is checked by a bounded Kani stand-in (thorough tier; bounded, not counted as proved).",
         "level_note": "Assumed: the ghost terminal model (DESIGN section 3) as the contract of TermLike; console::measure_text_width uninterpreted; wrapped_height's float arithmetic outside the Kani box; line widths < 2^32, terminal width <= 65535, frame heights < 2^31.",
         "assumptions": ["R10: one model terminal type; R2 &self -> &mut self; R3 loop desugarings; R11 derived comparisons field-wise"],
     },
